@@ -119,3 +119,41 @@ def check_fn(ctx, crate, fn, clause, tyof=None, expected_min=0):
         ctx.report(clause, key, ok, why, at="%s (%s)" % (path, at), kind="N",
                    sample={"fn": path, "at": at, "operand": show(z), "interval": list(iv) if iv else None, "accepted_by": "bound" if bounded else ("integer check" if checked else None)})
     return n
+
+
+def isqrt_table(ctx, crate, fn="ring::polar_cap_ring_index", clause="exact-integer-sqrt"):
+    """N: the ring index of a polar-cap cell number, n = max{n : 2 n (n + 1) <= hash}, read off the
+    extracted term (float estimate, then the integer correction, gated merges followed) at every
+    hash below 3 000, and at the first / last cell of 3 000 rings with n up to 2^29 — including the
+    ones where the float estimate alone is one too large (counted: the table is only worth something
+    if it contains such rows).  Reading, not running: rules.common.feval on the term."""
+    import math, random
+    from sym import Engine, show
+    from rules.common import feval, param
+    b = ctx.anchor(crate, fn, clause)
+    if b is None: return
+    e = Engine(crate); r = e.run(fn); ctx.functions |= e.visited_fns
+    pn = b.param_names()
+    if not r.returns or len(pn) != 1:
+        ctx.undecided(clause, fn + ":table", "no value", at=b.span); return
+    T = lambda n: 2 * n * (n + 1)
+    def exact(h):
+        n = (math.isqrt(1 + 2 * h) - 1) // 2
+        while T(n) > h: n -= 1
+        while T(n + 1) <= h: n += 1
+        return n
+    est = lambda h: (int(math.sqrt(float(1 + 2 * h))) - 1) >> 1
+    rnd = random.Random(11)
+    ns = [(1 << k) + j for k in range(20, 30) for j in range(-3, 4) if (1 << k) + j < (1 << 29)] + [rnd.randrange(1 << 26, 1 << 29) for _ in range(3000)]
+    hs = list(range(3000)) + [h for n in ns for h in (T(n) - 1, T(n), T(n) + 1, T(n + 1) - 1)]
+    bad = []; off = 0
+    for h in hs:
+        want = exact(h)
+        if est(h) != want: off += 1
+        got = feval(r.ret, {param(pn[0]): h}, e)
+        if got is None:
+            ctx.undecided(clause, fn + ":table", "cannot read %s at %d" % (show(r.ret)[:80], h), at=b.span); return
+        if got != want and len(bad) < 4: bad.append((h, got, want))
+    ctx.report(clause, fn + ":table", not bad and off >= 1000,
+               "%d cell numbers (all below 3000; first / last cells of %d rings up to n = 2^29), %d of them where the float estimate alone is off by one: the corrected index is the exact one" % (len(hs), len(ns), off) if not bad else
+               "hash %d: ring index %d, the exact one is %d (first of %d)" % (bad[0][0], bad[0][1], bad[0][2], len(bad)), at=b.span, kind="N")
